@@ -183,11 +183,16 @@ def two_resolutions(k):
             x = fx.LinCombFxp(k.S("x"), False)        # representation x at the current resolution
             one = 1 << r
             xv = k.v("x")
-            obs.append(("step %d (resolution %d): x < 3 agrees with the represented numbers" % (step, r), ("eq", (x < 3).lc.value, (xv < 3 * one) * 1)))
-            obs.append(("step %d (resolution %d): x >= 1.5" % (step, r), ("eq", (x >= 1.5).lc.value, (xv >= (3 * one) // 2) * 1)))
-            obs.append(("step %d (resolution %d): 3 - x" % (step, r), ("eq", (3 - x).lc.value, 3 * one - xv)))
-            obs.append(("step %d (resolution %d): selection of the constant 3" % (step, r),
-                        ("eq", k.br.if_then_else(x < 3, x, 3).lc.value, xv + (1 - (xv < 3 * one)) * (3 * one - xv))))
+            ops = [("x < 3", lambda: (x < 3).lc.value, (xv < 3 * one) * 1),
+                   ("x >= 1.5", lambda: (x >= 1.5).lc.value, (xv >= (3 * one) // 2) * 1),
+                   ("3 - x", lambda: (3 - x).lc.value, 3 * one - xv),
+                   ("selection of the constant 3", lambda: k.br.if_then_else(x < 3, x, 3).lc.value, xv + (1 - (xv < 3 * one)) * (3 * one - xv))]
+            for nm, f, want in ops:
+                try:
+                    got = f()
+                except (ValueError, AssertionError):
+                    continue                  # "... or the operation raises" (scaled operands beyond the bit length)
+                obs.append(("step %d (resolution %d): %s agrees with the represented numbers" % (step, r, nm), ("eq", got, want)))
     finally:
         fx.resolution = r0
     return obs
